@@ -61,6 +61,13 @@ func epsFor(v string) (cl, sv scen.EP, resumed bool) {
 		resumed = true
 	case "v12-cid":
 		cl.CID, sv.CID = 4, 4
+	case "v12-ccm8": // 8-byte tag: the 2-byte alert is the smallest record a suite has to open
+		cl.Suites, sv.Suites = []uint16{0xc0ae}, []uint16{0xc0ae}
+	case "v12-cbc":
+		cl.Suites, sv.Suites = []uint16{0xc00a}, []uint16{0xc00a}
+	case "v12-chacha-cid":
+		cl.Suites, sv.Suites = []uint16{0xcca9}, []uint16{0xcca9}
+		cl.CID, sv.CID = 3, 5
 	case "v13":
 		cl.MinVer, cl.MaxVer, sv.MinVer, sv.MaxVer = 13, 13, 13, 13
 		cl.Curves, sv.Curves = []uint16{0x1d}, []uint16{0x1d}
@@ -489,7 +496,7 @@ func leakSig(stacks []string) string {
 	return "unknown"
 }
 
-var variants = []string{"v12", "v12-psk", "v12-resumed", "v12-cid", "v13", "v13-nohv", "dual-12"}
+var variants = []string{"v12", "v12-psk", "v12-resumed", "v12-cid", "v13", "v13-nohv", "dual-12", "v12-ccm8", "v12-cbc", "v12-chacha-cid"}
 
 func gen(t *rapid.T) Case {
 	c := Case{Variant: rapid.SampledFrom(variants).Draw(t, "variant")}
@@ -557,5 +564,5 @@ func init() {
 		"closes an established still-open session, the peer's pending Read returns io.EOF, no goroutine is left. non-trivial = Close inside the handshake, or a blocked call, or >=2 closers"
 	pbt.Register(pbt.Prop[Case]{Name: "close-placement", Quick: 2500, Thorough: 60000, Gen: gen, Run: run, Crashy: true, Rule: "SAMPLED: " + rule})
 	pbt.Register(pbt.Prop[Case]{Name: "close-placement-grid", Enum: enumGrid, Exhaustive: true, Run: run, Crashy: true,
-		Rule: "GRID (7 variants x closing side C/S/both x trigger side x k=0..6 (thorough 9) x closers 1/3, plus after establishment): " + rule})
+		Rule: "GRID (10 variants x closing side C/S/both x trigger side x k=0..6 (thorough 9) x closers 1/3, plus after establishment): " + rule})
 }
